@@ -51,7 +51,8 @@ FullStep(ev) ==
                      /\ mustAccept(c) => sameM(keptAfter(c), ev.cycles[c].cand)
                      /\ mustReject(c) => sameM(keptAfter(c), ev.cycles[c].kept)
                      /\ sameM(keptAfter(c), ev.cycles[c].cand) \/ sameM(keptAfter(c), ev.cycles[c].kept)
-      startsFromInit == nC = 0 \/ sameM(ev.cycles[1].kept, ev.A0)
+      \* (the documented initial matrix is computed outside the library: equal up to rounding, 2^-30)
+      startsFromInit == nC = 0 \/ ApproxM(ev.cycles[1].kept, ev.A0, 2, 2, MaxAbsM(ev.A0))
   IN
   IF ev.exc # "" THEN R({"C14.full_fit_returns_psd_matrix"}, {"C14.full_fit_returns_psd_matrix"})
   ELSE
